@@ -382,7 +382,7 @@ def workload(tier, seed):
     step = 12
     for lo in range(0, total, step):
         yield "small", {"lo": lo, "hi": lo + step}
-    for i in range(40 if tier == "quick" else 600):
+    for i in range(40 if tier == "quick" else 3000):
         yield "seeded", {"rseed": seed * 10000 + i, "count": 12}
     for fn in ("xorcomp", "majcomp"):
         for (L, R) in ((1, 1), (1, 3), (2, 2), (2, 3), (3, 2), (3, 4), (2, 4)):
@@ -392,8 +392,8 @@ def workload(tier, seed):
             else:
                 import random
                 r = random.Random("c05m%d%d%d" % (L, R, seed))
-                masks = sorted({r.getrandbits(L * R) for _ in range(128 if tier == "quick" else 1024)})
+                masks = sorted({r.getrandbits(L * R) for _ in range(128 if tier == "quick" else 3000)})
             for i in range(0, len(masks), 32):
                 yield "compression", {"L": L, "R": R, "masks": masks[i:i + 32], "fn": fn}
-    for i in range(8 if tier == "quick" else 80):
+    for i in range(8 if tier == "quick" else 240):
         yield "cli", {"rseed": seed * 1000 + i, "count": 6}
